@@ -26,6 +26,9 @@ func (k msgServer) VoteGauge(ctx context.Context, msg *types.MsgVoteGauge) (*typ
 		if weight.IsNegative() {
 			return nil, errorsmod.Wrapf(types.ErrInvalidWeight, "negative weight (pool %d)", poolWeight.PoolId)
 		}
+		if weight.GT(math.LegacyOneDec()) {
+			return nil, errorsmod.Wrapf(types.ErrTotalWeightGTOne, "weight (pool %d): %s", poolWeight.PoolId, weight.String())
+		}
 		totalWeight = totalWeight.Add(weight)
 	}
 	if totalWeight.GT(math.LegacyOneDec()) {
